@@ -1,7 +1,10 @@
 """C05 - swarm membership and counts follow the announce history."""
 from hist_common import HIST_REASONS, HIST_TAGS, HIST_ASSUMPTIONS, HIST_RULE
 
+from conc_common import conc_part
 PROP = {
+    "parts": [conc_part("chk05c", 100, 4000)],
+    "mutex_rewrite": True,
     "glue": "GH", "chk": "chk05", "explain": "explainH",
     "gotags": ["shim_memory", "shim_redis", "shim_timecache"],
     "n": {"quick": 120, "thorough": 3000},
